@@ -40,6 +40,8 @@ try:
                 nxt = lines[i + 1].strip()[:300]
         res["checks"][p] = {"rc": r.returncode, "violation": vio[:1], "what": nxt, "s": round(time.time() - t, 1)}
 finally:
+    # the checks regenerated lean/ArtapModel/Gen/*.lean from the patched tree: regenerate them from /repo again
+    sh("python3 /verif/tools/py2lean.py --all", env=dict(os.environ, REPO="/repo"), cwd="/verif")
     sh("git -C /repo worktree remove --force %s" % wt)
     shutil.rmtree(wt, ignore_errors=True)
 if record:
